@@ -58,6 +58,11 @@ def run(prop, tier):
         # 2. replay into the implementation, dump the classes
         trace = os.path.join(wd, "c18.trace")
         C.run_harness(["classes", "--out", trace])
+        roles = os.path.join(wd, "roles.obs")
+        C.run_harness(["charroles", "--out", roles], timeout=1800)
+        with open(trace, "a") as f, open(roles) as g:
+            for line in g:
+                f.write(line)
         obs = os.path.join(wd, "names.obs")
         C.run_harness(["names", "--in", replay, "--out", obs])
         with open(trace, "a") as f, open(obs) as g:
@@ -66,7 +71,7 @@ def run(prop, tier):
         # 3. trace validation
         res, events = _validate(out, trace, tier == "thorough", "c18tv")
         out.traces = len(events)
-        out.evaluations = len(events) * 6 - 5 * 5   # six roles per name event, one per class event
+        out.evaluations = len(events) * 6 - 5 * 10   # six roles per name event, one per class event
         for e in events:
             if e["event"] == "class":
                 out.nontriv(e["cls"])
@@ -75,10 +80,11 @@ def run(prop, tier):
                 vals = [e[r] for r in ("elem", "attr", "pi", "ent", "doctype")]
                 if len(e["s"]) >= 2 or any(v is True for v in vals):
                     out.nontriv(e["s"])
-        for e in events[5:8]:
+        for e in events[10:13]:
             out.sample(e, limit=8)
         out.exhaustive = True
-        out.rule = ("classes: each of the 5 predicates evaluated on all 1,114,112 scalar values and "
+        out.rule = ("classes: each of the 5 predicates, and the acceptance of a character written literally in "
+                    "character data / an attribute value / a comment / PI data / a CDATA section, evaluated on all 1,114,112 scalar values and "
                     "compared with the specification's tables (quick: at every interval bound of either "
                     "side, which decides equality of two unions of intervals; thorough: at every code "
                     "point); names: every string of length <= MaxLen over 18 class representatives in 6 "
@@ -90,7 +96,7 @@ def run(prop, tier):
             "PI targets and entity names containing a colon: either answer accepted (Namespaces in XML "
             "asks for NCName there, XML 1.0 for Name)",
         ]
-        out.extra["name_strings"] = len(events) - 5
+        out.extra["name_strings"] = len(events) - 10
         return out.finish()
     finally:
         C.cleanup(wd)
